@@ -134,7 +134,7 @@ fn manager(limit: usize, depth: usize) -> AntiEntropyManager {
     AntiEntropyManager::new(ReplicaId(1), AntiEntropyConfig { sync_interval_ms: 1000, max_keys_per_sync: limit, merkle_tree_depth: depth, auto_sync_on_heal: true })
 }
 
-/// a replica holds two keys in different buckets (depth 1); only the second key's bucket is divergent. With a per-round
+/// a replica holds two keys in different buckets (depth 8); only the second key's bucket is divergent. With a per-round
 /// limit of 1 the divergent key must still be offered: the limit bounds what is SENT, it must not cut the search short.
 /// (values symbolic; the key names are chosen so that their buckets differ - natively several name pairs are swept,
 /// because the real map's iteration order is not under the caller's control)
@@ -142,7 +142,7 @@ pub fn sync_offer() {
     let (ta, tb) = (any_clock(), any_clock());
     let (xa, xb) = (vs::u8(), vs::u8());
     let names: [&str; 6] = ["a", "b", "c", "d", "e", "f"];
-    let mgr = manager(1, 1);
+    let mgr = manager(1, 8);
     let mut ok = true;
     let mut tried = 0;
     let mut i = 0;
@@ -151,7 +151,7 @@ pub fn sync_offer() {
         while j < 6 {
             if i != j && (vs::NATIVE || tried == 0) {
                 let (va, vb) = (lww_value(xa, false, ta, None), lww_value(xb, false, tb, None));
-                let (ba, bb) = (KeyDigest::new(names[i], &va).bucket(1), KeyDigest::new(names[j], &vb).bucket(1));
+                let (ba, bb) = (KeyDigest::new(names[i], &va).bucket(8), KeyDigest::new(names[j], &vb).bucket(8));
                 if ba != bb {
                     tried += 1;
                     let mut m = crate::coll::HashMap::new();
